@@ -101,6 +101,8 @@ def _strategy(tier):
         # one residue of another kind (atoms ZA-ZB -> particle Z1) whose atom ZB may have been renamed by an earlier stage: the
         # atom then carries its original name as _old_atomname, and that is the name mappings go by
         'z_at': st.one_of(st.none(), st.integers(0, 7)), 'z_renamed': st.booleans(),
+        # a bond between atoms that two different modification placements add (a cross-link between modified side chains)
+        'xlink': st.one_of(st.none(), st.none(), st.tuples(st.integers(0, 20), st.integers(0, 20)).map(list)),
     })
 
 
@@ -155,6 +157,18 @@ def _build(case):
             mol.add_edge(entry['ptm'].get(parent, entry.get(parent)), key)
             entry['ptm'][atom] = key
             key += case['keystep']
+    xlink = None
+    if case.get('xlink') and not any('R' in e['mods'] for e in layout):
+        ends = [(ridx, name, e['ptm'][atom]) for ridx, e in enumerate(layout) for name, atom in (('P', 'P'), ('Q', 'Q2'))
+                if name in e['mods']]
+        if len(ends) >= 2:
+            a = ends[case['xlink'][0] % len(ends)]
+            b = ends[case['xlink'][1] % len(ends)]
+            if a[2] != b[2] and not mol.has_edge(a[2], b[2]) and a[0] != b[0]:
+                mol.add_edge(a[2], b[2])
+                xlink = (a, b)
+    for entry in layout:
+        entry['xlink'] = xlink
     return mol, layout
 
 
@@ -254,6 +268,15 @@ def _run(case):
         if 'R' in entry['mods'] and holders.get(entry['ptm']['R']):
             raise Violation('mod-unmapped-recorded', '%s: atom R of residue %d (no mapping) is recorded by %r' % (
                 label, ridx, holders[entry['ptm']['R']]))
+    xlink = layout[0].get('xlink') if layout else None
+    if xlink:
+        ends = []
+        for ridx, name, atom in xlink:
+            found = [idx for idx, w in holders.get(atom, [])]
+            if len(found) != 1:
+                raise Violation('mod-atom-holders', '%s: cross-linked modification atom %r is recorded by %d particles' % (label, atom, len(found)))
+            ends.append(found[0])
+        want_edges.add(frozenset(ends))
     got_edges = {frozenset(e) for e in out.edges}
     if got_edges != want_edges:
         raise Violation('mod-edges', '%s: edges beyond the expected %r, expected edges absent %r' % (
@@ -279,6 +302,8 @@ def _run(case):
         classes.append('modification-without-mapping')
     if any(e['mods'] and layout[i + 1]['mods'] for i, e in enumerate(layout[:-1])):
         classes.append('neighbouring-modified-residues')
+    if xlink:
+        classes.append('bond-between-two-modification-placements')
     if n_z and case.get('z_renamed'):
         classes.append('block-fits-through-_old_atomname-only')
     return Outcome(classes, apart)
